@@ -28,7 +28,7 @@ def check(ctx):
     ctx.samples.append({"edge_cover_walk_prefix": script[:12]})
     rnd = []
     for i in range(1500 if ctx.thorough else 300):
-        rnd += vc.random_script(ctx.rng, "vec", "tracked" if i % 3 else "int", 0, 80)
+        rnd += vc.random_script(ctx.rng, "vec", "tracked" if i % 3 else ("int" if i % 2 else "sp"), 0, 80)
     # element type double with zeros of both signs and NaN
     for i in range(400 if ctx.thorough else 80):
         rnd += vc.double_script(ctx.rng)
@@ -49,7 +49,7 @@ def check(ctx):
     script_sp, _, _ = vc.graph_scripts(ctx, g, [("vec", "tracked"), ("vec", "int")], old_vec=True)
     rnd_sp = []
     for i in range(1500 if ctx.thorough else 300):
-        rnd_sp += vc.random_script(ctx.rng, "vec", "tracked" if i % 3 else "int", 0, 80, old_vec=True)
+        rnd_sp += vc.random_script(ctx.rng, "vec", "tracked" if i % 3 else ("int" if i % 2 else "sp"), 0, 80, old_vec=True)
     t1 = ctx.drive(drvsp, script_sp, "vec_sp_cover")
     t2 = ctx.drive(drvsp, rnd_sp, "vec_sp_random")
     bad = ctx.judge("VecLifeTrace", [t1, t2], label="VecLifeTrace_sp")
